@@ -131,6 +131,8 @@ def run(prog, chk):
         res = _ev_alloc_table(prog, R, f, rec, flag, vec, sim)
         if res[0] is None:
             chk.note('evaluator allocation table not evaluated: %s' % res[1])
+            # the obligation cannot vanish silently: without other violations this run is analysis-broken
+            chk.vacuous.append('evaluator allocation table of %s could not be evaluated (%s)' % (f.short, res[1]))
         else:
             chk.ob('R06.6', f, f.ln, not res[0],
                    'a handed-out qubit index is unmeasured in the evaluator\'s bookkeeping, for a recycled and for a fresh index (%d abstract states); counterexamples: %s' % (res[1], res[0][:3]),
@@ -287,6 +289,7 @@ def run(prog, chk):
     res = _alloc_flag_table(prog, chk, R, sim, mf)
     if res[0] is None:
         chk.note('allocate flag table not evaluated: ' + str(res[1]))
+        chk.vacuous.append('simulator allocate flag table could not be evaluated (%s)' % (res[1],))
     else:
         chk.ob('R06.5', sim['allocate'], sim['allocate'].ln, not res[0],
                'allocate returns the old count, increments it, and leaves flag[index] present and false on all %d abstract (count, flag-vector length) states; counterexamples: %s' % (res[1], res[0][:3]),
@@ -336,6 +339,25 @@ def _ev_alloc_table(prog, R, f, rec, flag, vec, sim):
                 bad.append('%s nq=%d: index %r, flag %r, last %r' % ('recycled' if recycled else 'fresh', nq, idx,
                                                                       this[vec][idx].get(flag) if isinstance(idx, int) and idx < len(this[vec]) else '?',
                                                                       this[last][idx] if isinstance(idx, int) and idx < len(this[last]) else '?'))
+    # two free indices, two allocations in a row: each hands out an index of the free list and removes exactly that one — two
+    # live qubits never share an index (and with it one measured flag)
+    for order in ([0, 2], [2, 0]):
+        n += 1
+        qs = [Obj({'name': 'old%d' % i, flag: True}) for i in range(3)]
+        this = Obj({free: list(order), vec: qs, last: [1] * 3, simf: Obj()})
+        models = {'reset': lambda it, e, env: None, SX.short(sim['allocate'].name): lambda it, e, env: 3}
+        try:
+            i1 = Interp(prog, models, max_steps=4000).call_fn_env(f, ['a'], {'this': this})
+            left = list(this[free])
+            i2 = Interp(prog, models, max_steps=4000).call_fn_env(f, ['b'], {'this': this})
+        except OutOfRange as ex:
+            bad.append('two free indices %s: %s' % (order, ex))
+            continue
+        except Unsupported as ex:
+            return None, str(ex)
+        if not (i1 in order and i1 not in left and len(left) == 1 and i2 == left[0] and i1 != i2 and this[free] == []):
+            bad.append('free list %s: first allocation returns %r leaving %s, second returns %r leaving %s — an index handed out must leave the free list' % (
+                order, i1, left, i2, this[free]))
     return bad, n
 
 
